@@ -57,6 +57,11 @@ FprLen(kv) == CASE kv = 3 -> 16 [] kv = 4 -> 20 [] kv = 6 -> 32
 (* key id: v4 = low 64 bits of the fingerprint, v6 = high 64 bits, v3 = low 64 bits of the RSA modulus *)
 KeyIdRule(kv) == CASE kv = 3 -> "low64_of_modulus" [] kv = 4 -> "low64_of_fingerprint" [] kv = 6 -> "high64_of_fingerprint"
 
+(* v6 signatures: the size of the salt is fixed per hash algorithm (RFC 9580 table 23; ids 8 SHA2-256, 9 SHA2-384, 10 SHA2-512, *)
+(* 11 SHA2-224, 12 SHA3-256, 14 SHA3-512) - it is NOT a function of the digest size (SHA2-224 has 16, like SHA2-256)             *)
+SaltHashes == {8, 9, 10, 11, 12, 14}
+SaltLen(h) == CASE h = 8 -> 16 [] h = 9 -> 24 [] h = 10 -> 32 [] h = 11 -> 16 [] h = 12 -> 16 [] h = 14 -> 32
+
 (* where the library itself embeds identities when it signs / encrypts; "of" says WHOSE identity it must be *)
 Site(site, value, of) == [site |-> site, value |-> value, of |-> of]
 EmbedSites(kv) ==
